@@ -22,25 +22,15 @@ func RuleDelivered(r *Report, p *Program, listener bool) {
 		if !listener && !returnsList(sf.Fn) {
 			continue
 		}
-		for _, mc := range closuresOf(sf.Fn) {
-			cfn := mc.Fn.(*ssa.Function)
-			reads := false
-			for _, b := range cfn.Blocks {
-				for _, in := range b.Instrs {
-					if c, ok := in.(ssa.CallInstruction); ok {
-						if f := c.Common().StaticCallee(); f != nil && strings.HasPrefix(f.Name(), "Read") && f.Pkg != nil && f.Pkg.Pkg.Path() == "net" {
-							reads = true
-						}
-					}
-				}
-			}
-			if !reads {
+		for _, gt := range goTargetsIn(sf.Fn) {
+			cfn := gt.Fn
+			if !readsSocket(cfn) {
 				continue
 			}
 			w := NewWalker(p)
 			w.LoopFuel = 2
-			w.Inline = func(f *ssa.Function, d int) bool { return false }
-			paths := w.Walk(cfn, nil, nil)
+			w.Inline = inlineHelpers([]*ssa.Package{p.SSAPkg("uhppote")}, nil)
+			paths := w.Walk(cfn, symbolicArgs(cfn), nil)
 			bad := ""
 			nOK := 0
 			for _, pa := range paths {
@@ -72,8 +62,12 @@ func RuleDelivered(r *Report, p *Program, listener bool) {
 						if pe.Kind == "call" && strings.HasPrefix(pe.Name, "dyn:") {
 							hands = true
 						}
-						if pe.Kind == "store" && strings.HasPrefix(pe.Name, "free:") {
-							hands = true
+						if pe.Kind == "store" && len(pe.Args) > 0 {
+							// a store into storage that was not allocated on this path: a variable shared with the
+							// parent (captured, or reached through a pointer the goroutine was given)
+							if a := pe.Args[0]; a.Op != "ptr" || (a.Cell != nil && a.Cell.Sym) {
+								hands = true
+							}
 						}
 						if hands {
 							for _, a := range pe.Args {
